@@ -77,6 +77,13 @@ func copyTaintIssues(s *sided) []sideIssue {
 				ans, asked = run.predTrue("canCopy", u)
 			}
 		}
+		if !asked {
+			// ... or on the named type whose Underlying() this is (a field read through the underlying type of a type that
+			// cannot be spelled): canCopy is tabulated over Underlying()
+			if n, ok := typeOf.attrs["#underlyingOf"].(*VOpaque); ok {
+				ans, asked = run.predTrue("canCopy", n)
+			}
+		}
 		if !asked || !ans {
 			k := kindOfVal(typeOf)
 			out = append(out, sideIssue{node, fmt.Sprintf("%s of %s into %s although canCopy was not established for its type (kind %s) on this path: pointers, slices or maps inside it stay shared between source and copy", what, s.rs.src(srcE), s.rs.src(dstE), strings.TrimPrefix(k, "*types.")), "shallow-copy", strings.TrimPrefix(k, "*types.")})
